@@ -21,12 +21,18 @@ use std::rc::Rc;
 #[derive(Clone)]
 pub struct Growing {
     pub data: Rc<RefCell<(Vec<u8>, usize, usize)>>, // bytes, available, consumed
+    /// 0 = hand out as much as is asked for and available; k > 0 = at most k bytes per `read` call
+    /// (a pipe, socket or small BufReader behaves like that): the bytes delivered are the same.
+    pub maxread: usize,
 }
 
 impl Read for Growing {
     fn read(&mut self, buf: &mut [u8]) -> std::io::Result<usize> {
         let mut d = self.data.borrow_mut();
-        let n = buf.len().min(d.1.saturating_sub(d.2));
+        let mut n = buf.len().min(d.1.saturating_sub(d.2));
+        if self.maxread > 0 {
+            n = n.min(self.maxread);
+        }
         let from = d.2;
         buf[..n].copy_from_slice(&d.0[from..from + n]);
         d.2 += n;
@@ -330,7 +336,10 @@ pub fn reader(cmd: &Value) -> Value {
         })
         .unwrap_or_default();
     let ops: Vec<Value> = cmd["ops"].as_array().cloned().unwrap_or_default();
-    let g = Growing { data: Rc::new(RefCell::new((src.clone(), avail.min(src.len()), 0))) };
+    let g = Growing {
+        data: Rc::new(RefCell::new((src.clone(), avail.min(src.len()), 0))),
+        maxread: cmd["maxread"].as_u64().unwrap_or(0) as usize,
+    };
     let mut it = Interp { ops: &ops, res: Vec::new(), entries, src: g.clone() };
     let mut rd = H263Reader::from_source(g.clone());
     let mut i = 0usize;
